@@ -34,6 +34,8 @@ CHECKS = {
          'the stream part of the property is decided; parsing arbitrary Accept-Encoding strings in isolation is covered only through the header variants scripted peers send; aiohttp session is a stub', '6 (C17)'),
  'C19': ('exploration', 'configuration matrix (provider TLS x consumer none/optional/enforced x own/shared HTTP server x alternative host name, enumerated over the batch) x seeded histories and schedules in the simulated stack with modelled TLS contexts; every URL a TLS-configured party writes and every connection it opens is inspected in the network history; static check of mk_ssl_contexts with the repo test certificates',
          'TLS handshake/record layer is a model (which connection is wrapped with which context); certificates only in the static part', '6 (C19)'),
+ 'C12': ('exploration', 'seeded operation histories (construct / parse with absent optional members / mk_copy / deepcopy / update_from_other_container / nested writes / in-place list appends / serialise) over all container and data-type classes against a reference model with one private snapshot per live instance and the start-of-process defaults (history half of the technique only: no schedule, clock or fault)',
+         'sampled histories; single task; copy.copy of a container is not an operation of the model (shallow by language definition)', '6 (C12)'),
 }
 TECH = 'deterministic simulation with fault injection (seeded scheduler + virtual clock + simulated network, fork per run, ddmin replay)'
 
